@@ -45,7 +45,8 @@ func SPP(pointer uint16) Message {
 func SongSelect(song uint8) Message {
 	// TODO check - it is a guess
 	//return NewMessage([]byte{byteSysSongSelect, song})
-	return []byte{byteSysSongSelect, song}
+	// data bytes are 7 bit
+	return []byte{byteSysSongSelect, song & 0x7F}
 }
 
 /*
@@ -76,5 +77,6 @@ func MTC(m uint8) Message {
 	// TODO check - it is a guess
 	// TODO provide a better abstraction for MTC
 	//return NewMessage([]byte{byteMIDITimingCodeMessage, byte(m)})
-	return []byte{byteMIDITimingCodeMessage, byte(m)}
+	// data bytes are 7 bit
+	return []byte{byteMIDITimingCodeMessage, byte(m) & 0x7F}
 }
